@@ -98,3 +98,54 @@ Proof.
     exact (ex_write [] 8 1 0 [] (mkst (upd e_one 1 (Some 1%nat)) (h_two 5 1%nat) []) 1%nat (h_two 5 1%nat)
              eq_refl (write_rel_same _ _ _ _ _)).
 Qed.
+
+(* ---- why the abstract heap has the component [po] (attribution of writes) ----
+   f(a, b): a.append(b); c = a[..]; c[..] = ..   modifies b.  The checker as first
+   written reported only a (a pre-existing object was assumed to hold only objects of
+   its own region even after the function had stored into it); it now reports a and b. *)
+Definition f_attr : fundef := mkfun 1 "f" [(1, "a"%string); (2, "b"%string)] true
+  (seq [SWrite 1 1 0 [2]; SAssign 3 (ELoad 1 0); SWrite 2 3 0 []]).
+Definition h_ab : heap := mkh no_kids (fun l => l) (fun _ => 0) 2%nat.
+Definition e_ab : env := fun x => if x =? 1 then Some 0%nat else if x =? 2 then Some 1%nat else None.
+Definition st_ab : state := mkst e_ab h_ab [].
+Definition h_ab' : heap :=
+  mkh (fun m g k => m = 0%nat /\ g = 0 /\ k = 1%nat) (fun l => l) (fun _ => 0) 2%nat.
+
+Lemma initial_ab : initial f_attr 2%nat st_ab.
+Proof.
+  unfold initial, st_ab. cbn [st_heap st_env st_log h_ab next kids base fn_params f_attr].
+  split; [reflexivity|]. split; [reflexivity|]. split; [|split].
+  - intros x l Hx. unfold e_ab in Hx. destruct (N.eqb_spec x 1) as [->|Hne1].
+    + injection Hx as <-. split; [lia|]. exists "a"%string. left. reflexivity.
+    + destruct (N.eqb_spec x 2) as [->|Hne2]; [|discriminate Hx].
+      injection Hx as <-. split; [lia|]. exists "b"%string. right. left. reflexivity.
+  - intros l g k Hk. destruct Hk.
+  - intros l Hl. exact Hl.
+Qed.
+
+Lemma attr_writes_b :
+  exists st', initial f_attr 2%nat st_ab /\
+    exec [] (fn_body f_attr) st_ab Normal st' /\ In 1%nat (st_log st') /\
+    (forall l, reach (st_heap st_ab) 0%nat l -> base (st_heap st_ab) l <> 1%nat).
+Proof.
+  exists (mkst (upd e_ab 3 (Some 1%nat)) h_ab' [1%nat; 0%nat]).
+  split; [exact initial_ab|]. split; [|split; [left; reflexivity|]].
+  - cbn [fn_body f_attr seq fold_right].
+    apply (ex_seq [] _ _ st_ab (mkst e_ab h_ab' [0%nat])).
+    { apply (ex_write [] 1 1 0 [2] st_ab 0%nat h_ab'); [reflexivity|].
+      unfold write_rel. cbn [st_heap st_env st_ab h_ab h_ab' next site_of base kids].
+      split; [reflexivity|]. split; [reflexivity|]. split; [reflexivity|]. split.
+      - intros m g k Hm. unfold no_kids. split; [intros [Hm0 _]; contradiction|intros []].
+      - intros g k [_ [-> ->]]. right. split; [reflexivity|]. exists 2. split; [left; reflexivity|reflexivity]. }
+    apply (ex_seq [] _ _ _ (mkst (upd e_ab 3 (Some 1%nat)) h_ab' [0%nat])).
+    { apply (ex_assign [] 3 _ (mkst e_ab h_ab' [0%nat]) h_ab' 1%nat). cbn [st_heap st_env].
+      apply (ev_load h_ab' e_ab 1 0 0%nat 0 1%nat); [reflexivity| |reflexivity].
+      cbn [kids h_ab']. repeat split. }
+    apply (ex_seq [] _ _ _ (mkst (upd e_ab 3 (Some 1%nat)) h_ab' [1%nat; 0%nat])); [|apply ex_skip].
+    exact (ex_write [] 2 3 0 [] (mkst (upd e_ab 3 (Some 1%nat)) h_ab' [0%nat]) 1%nat h_ab'
+             eq_refl (write_rel_same _ _ _ _ _)).
+  - intros l Hr. cbn [st_heap st_ab h_ab base].
+    assert (Hl : forall l0 l1, reach h_ab l0 l1 -> l1 = l0).
+    { clear. intros l0 l1 Hr. induction Hr as [|l0 k g m Hr IH Hk]; [reflexivity|]. destruct Hk. }
+    rewrite (Hl _ _ Hr). discriminate.
+Qed.
